@@ -227,8 +227,20 @@ func (s *session) commit(r *sessionRecord, trivial bool) (err error) {
 		// manifest journal writer not yet created, create one
 		err = s.newManifest(r, nv)
 	} else if s.manifest.Size() >= s.o.GetMaxManifestFileSize() {
-		// pass nil sessionRecord to avoid over-reference table file
-		err = s.newManifest(nil, nv)
+		// pass a sessionRecord without tables to avoid over-reference table
+		// file (the new version already has them), but keep the journal and
+		// sequence numbers of r: they must reach the new manifest.
+		rec := &sessionRecord{}
+		if r.has(recJournalNum) {
+			rec.setJournalNum(r.journalNum)
+		}
+		if r.has(recPrevJournalNum) {
+			rec.setPrevJournalNum(r.prevJournalNum)
+		}
+		if r.has(recSeqNum) {
+			rec.setSeqNum(r.seqNum)
+		}
+		err = s.newManifest(rec, nv)
 	} else {
 		err = s.flushManifest(r)
 	}
